@@ -7,9 +7,83 @@ import os
 import lib
 
 
+BROKER_CHECKED = '"Q2HandedOnce", "InflightLeWindow", "WillAtMostOnce", "TerminateAtMostOnce", "IncomingKeptUntilHandedOn"'
+BROKER_INV = "Q2Once InflightLeWindow WillOnce OneHolder NoDuplicateDelivery OrderKept NoLoss"
+
+
+def _scripts(d):
+    return "[c \\in Conns |-> CASE " + " [] ".join('c = "%s" -> <<%s>>' % (k, v) for k, v in d.items()) + "]"
+
+
+def _after(d, conns):
+    return "[c \\in Conns |-> CASE " + " [] ".join('c = "%s" -> {%s}' % (c, ", ".join('"%s"' % x for x in d.get(c, []))) for c in conns) + "]"
+
+
+# name -> configuration of BrokerMC.tla
+BROKER_CFGS = {
+    # window 1, three messages, no failures: order, window, once
+    "flow": dict(scripts={"p": 'Connect("pub", TRUE, FALSE), Pub(1, "m1", 1), Pub(2, "m2", 1), Pub(3, "m3", 0)', "s1": 'Connect("sub", FALSE, FALSE), Sub(1, 1)'},
+                 skeys='"t:p", "s:sub"', need='"s:sub"', cuts=0, cutconns="", window=1,
+                 witnesses=["W_NothingOwed", "W_WindowNeverFull", "W_FewReceived"]),
+    # the subscriber's connection is cut anywhere, a second connection resumes the session
+    "resume": dict(scripts={"p": 'Connect("pub", TRUE, FALSE), Pub(1, "m1", 1), Pub(2, "m2", 2)', "s1": 'Connect("sub", FALSE, FALSE), Sub(1, 2)', "s2": 'Connect("sub", FALSE, FALSE)'},
+                   after={"s2": ["s1"]}, skeys='"t:p", "s:sub"', need='"s:sub"', cuts=1, cutconns='"s1"', window=2,
+                   witnesses=["W_NoResume", "W_NoRedelivery", "W_NothingOwed"]),
+    # the publisher's connection is cut anywhere during a QoS 2 exchange, its next connection releases again
+    "release": dict(scripts={"p": 'Connect("pub", FALSE, FALSE), Pub(1, "m1", 2)', "p2": 'Connect("pub", FALSE, FALSE), Rel(1)', "s1": 'Connect("sub", FALSE, FALSE), Sub(1, 2)'},
+                    after={"p2": ["p"]}, skeys='"s:pub", "s:sub"', need='"s:sub"', cuts=1, cutconns='"p"', window=2,
+                    witnesses=["W_NoKnownRelease", "W_NoUnknownRelease"], devs=[("PubcompBeforeDelete", "Q2HandedOnce")]),
+    "resume1": dict(scripts={"p": 'Connect("pub", TRUE, FALSE), Pub(1, "m1", 1)', "s1": 'Connect("sub", FALSE, FALSE), Sub(1, 1)', "s2": 'Connect("sub", FALSE, FALSE)'},
+                    after={"s2": ["s1"]}, skeys='"t:p", "s:sub"', need='"s:sub"', cuts=1, cutconns='"s1"', window=1,
+                    witnesses=["W_NoResume", "W_NoRedelivery", "W_NothingOwed"]),
+    "takeover1": dict(scripts={"s1": 'Connect("sub", FALSE, TRUE), Sub(1, 1)', "s2": 'Connect("sub", FALSE, FALSE)'},
+                      skeys='"s:sub"', need='"s:sub"', cuts=0, cutconns="", window=2,
+                      witnesses=["W_NoWill", "W_NoTakeover"]),
+    # a second connection with the same client id at any moment (takeover), the first one has a will, a watcher receives it
+    "takeover": dict(scripts={"s1": 'Connect("sub", FALSE, TRUE), Sub(1, 1)', "s2": 'Connect("sub", FALSE, FALSE)', "w": 'Connect("watch", TRUE, FALSE), SubW(1)'},
+                     skeys='"s:sub", "t:w"', need='"t:w"', cuts=1, cutconns='"s1"', window=2,
+                     witnesses=["W_NoWill", "W_NoTakeover"]),
+}
+BROKER_FOR = {   # property -> (quick configs, thorough configs)
+    "C06": (["flow"], ["resume"]), "C07": (["release"], ["resume"]), "C08": (["resume1"], ["resume", "flow"]), "C11": ([], []),
+    "C12": (["takeover1"], ["takeover"]), "C13": (["takeover1"], ["takeover", "resume"]), "C14": (["takeover1"], ["release", "takeover"]),
+    "C15": (["flow"], ["resume"]), "C16": (["flow"], ["resume"]), "C20": ([], ["flow"]),
+}
+
+
 def broker_mc(run, prop):
-    # filled in by BrokerMC.tla (see DESIGN.md); until then only trace validation contributes states
-    return
+    """BrokerMC.tla: Broker.tla closed with scripted conformant peers, cuts and reconnects; end-to-end properties as invariants."""
+    wd, tier = run.wd, run.tier
+    quick, thorough = BROKER_FOR.get(prop, ([], []))
+    names = quick + (thorough if tier == "thorough" else [])
+    states = trans = 0
+    configs, wit = [], []
+
+    def one(c, inv, props="", dev="", timeout=3000):
+        conns = list(c["scripts"].keys())
+        cfg = _cfg("BrokerMC.cfg", CONNS=", ".join('"%s"' % x for x in conns), SKEYS=c["skeys"], NEED=c["need"], CUTS=str(c["cuts"]), CUTCONNS=c["cutconns"],
+                   WINDOW=str(c["window"]), WITHHOLD=c.get("withhold", ""), DEV=dev, INV=inv, PROPS=props, CHECKED=BROKER_CHECKED)
+        if not props:
+            cfg = cfg.replace("PROPERTIES \n", "")
+        return lib.tlc(wd, "BrokerMC1", cfg, timeout=timeout, defs={"SCRIPTS": _scripts(c["scripts"]), "AFTER": _after(c.get("after", {}), conns)})
+
+    for n in names:
+        c = BROKER_CFGS[n]
+        r = one(c, BROKER_INV, "Delivery")
+        _expect(r, "BrokerMC " + n)
+        states += r.distinct; trans += r.generated
+        configs.append("%s: %d states, %d transitions" % (n, r.distinct, r.generated))
+        for w in c.get("witnesses", []):
+            rw = one(c, w, timeout=900)
+            _expect(rw, "BrokerMC %s witness %s" % (n, w), w)
+            wit.append("%s: %s reachable" % (n, w[2:]))
+        for dev, bad in c.get("devs", []):
+            rd = one(c, BROKER_INV, dev='"%s"' % dev, timeout=900)
+            if "DESIGN-VIOLATION" not in rd.out or bad not in rd.out:
+                raise lib.Infra("deviation %s in %s did not trip %s:\n%s" % (dev, n, bad, rd.out[-2000:]))
+            wit.append("%s: deviation %s trips %s" % (n, dev, bad))
+    if names:
+        run.add(states=states, transitions=trans, exhaustive=True, design_configs=configs, design_witnesses=wit)
 
 
 def _cfg(name, **subst):
